@@ -5,7 +5,8 @@ results (property C18, engine E4) - never imports sc3.
                        mc.oracles.osc10);
 `layout(dgram)`        where the int32 fields and the type tags of a *valid*
                        datagram are;
-`faults(dgram)`        every truncation, every int32 field <- INT_VALUES,
+`faults(dgram)`        every truncation, every int32 field <- INT_VALUES (length
+                       fields also <- value + 1..4),
                        every type tag <- TAG_VALUES;
 `classify(dgram)`      what the property statement demands for a datagram:
 
@@ -38,6 +39,7 @@ BUNDLE = osc10.BUNDLE_TAG
 NTP_UNIX = 2208988800       # seconds from 1900-01-01 to 1970-01-01 (RFC 868)
 
 INT_VALUES = [-2 ** 31, -8, -4, -1, 0, 1, 3, 4, 2 ** 31 - 1]
+SIZE_DELTAS = [1, 2, 3, 4]      # length fields are also overstated by 1..4
 TAG_VALUES = ['i', 'f', 's', 'b', '[', ']', 'x', '\x00']
 DEMANDED_TAGS = frozenset('ifsbTF[]')
 
@@ -82,6 +84,14 @@ def bases(unix_future):
             b(timetag(unix_future + 32), [m('/ab', [2])])]),
         'imm_timed': b(1, [
             m('/a', [1]), b(timetag(unix_future), [m('/ab', [2])])]),
+        # bundles whose LAST element still parses when it is cut short: a
+        # message without arguments (loses its whole type tag string) and a
+        # message ending in a float (receivers zero-pad a short float); the
+        # element-length deviation is met before either is read
+        'bundle_noarg': b(1, [m('/a', [1]), m('/ab')]),
+        'bundle_float': b(1, [m('/a', [1]), m('/ab', [0.25])]),
+        'nested_noarg': b(1, [m('/a', [1]), b(1, [m('/ab')])]),
+        'nested_float': b(1, [m('/a', [1]), b(1, [m('/ab', [2, 0.25])])]),
         'siblings': b(1, [
             b(timetag(unix_future), [m('/a', [1])]),
             b(timetag(unix_future + 32), [m('/ab', [2]), m('/a', [3])])]),
@@ -149,7 +159,10 @@ def faults(dgram):
         out.append((['trunc', n], d[:n]))
     for off, role in lay['ints']:
         cur = struct.unpack_from('>i', d, off)[0]
-        for v in INT_VALUES:
+        vals = list(INT_VALUES)
+        if role != 'arg':
+            vals += [cur + k for k in SIZE_DELTAS if cur + k not in vals]
+        for v in vals:
             if v == cur:
                 continue
             out.append((['int', off, role, v],
@@ -366,6 +379,18 @@ def selftest():
     assert cls(i[:5] + b'b' + i[6:]) == 'unrecoverable'     # size 1, no data
     assert cls(i[:5] + b'[' + i[6:]) == 'lenient'
     assert len(faults(i)) == 12 + 8 + 7
+    for name in ('bundle_noarg', 'bundle_float', 'nested_noarg',
+                 'nested_float'):
+        d = b[name]
+        for k in (1, 2, 3, 4):          # cut short: the last element(s)
+            assert classify(d[:-k])['why'].startswith('oversize'), (name, k)
+        for desc, x in faults(d):       # every overstated element length
+            if desc[0] == 'int' and desc[2] == 'elem-size' and \
+                    desc[1] > 16 and \
+                    desc[3] > struct.unpack_from('>i', d, desc[1])[0]:
+                assert classify(x)['why'].startswith('oversize'), (name, desc)
+    assert [k[3] for k, _ in faults(b['bundle_float'])
+            if k[:2] == ['int', 32]] == INT_VALUES + [13, 14, 15, 16]
     for x in range(256):
         assert cls(bytes([x])) == 'unrecoverable'
     assert cls(b'/\x00') == 'lenient' and cls(b'#b') == 'unrecoverable'
